@@ -3,6 +3,7 @@ package iocommon
 import (
 	"bytes"
 	"embed"
+	"github.com/microsoft/yardl/tooling/internal/verifhook"
 	"os"
 	"path"
 	"path/filepath"
@@ -14,9 +15,11 @@ import (
 func WriteFileIfNeeded(filename string, contents []byte, perm os.FileMode) error {
 	existingContents, err := os.ReadFile(filename)
 	if err == nil && bytes.Equal(existingContents, contents) {
+		verifhook.Emit("WriteFile", "path", filename, "wrote", false)
 		return nil
 	}
 
+	verifhook.Emit("WriteFile", "path", filename, "wrote", true)
 	return os.WriteFile(filename, contents, perm)
 }
 
